@@ -125,6 +125,7 @@ func (cp *FreeList) FlushN(n int) (types.Work, error) {
 	if len(blocks) == 0 {
 		return 0, nil
 	}
+	verifhook.Yield("freelist.FlushN.beforeWrite")
 
 	var work types.Work
 	for _, record := range blocks {
